@@ -123,13 +123,13 @@ func (g *gen) userCall(target *fn, self *fn, guarded bool, depth int) *node {
 	want := len(target.params) - 1
 	k := want
 	x := g.r(100)
-	if x < 8 {
+	if x < 3 {
 		k = want + 1 // too many: error
-	} else if x < 16 && want > 0 {
+	} else if x < 7 && want > 0 {
 		k = want - 1 // too few: parameter stays unbound (or is found in the caller: chained scopes)
 	}
 	for i := 0; i < k; i++ {
-		args = append(args, g.expr(self, guarded, depth+1))
+		args = append(args, g.exprT(self, guarded, depth+1, g.r(100) < 85))
 	}
 	return call(target.name, args...)
 }
@@ -137,7 +137,7 @@ func (g *gen) userCall(target *fn, self *fn, guarded bool, depth int) *node {
 func (g *gen) atom(self *fn) *node {
 	if self != nil && g.r(100) < 60 {
 		ps := self.params
-		if g.r(100) < 10 {
+		if g.r(100) < 4 {
 			return Y(common.Pick(g.ctx.Rng, pool)) // possibly not a parameter of this function
 		}
 		return Y(ps[g.r(len(ps))])
@@ -599,7 +599,7 @@ func play(ctx *common.Ctx, p *program, tmpl int, order []int, compileMains bool,
 
 func Run(ctx *common.Ctx) {
 	defineEmit()
-	ngroups := 260
+	ngroups := 600
 	if ctx.Thorough() {
 		ngroups = 3000
 	}
@@ -696,9 +696,9 @@ func Run(ctx *common.Ctx) {
 		}
 	}
 	ctx.Meta.DistinctNontrivial = len(distinct)
-	ctx.Meta.Rule = "programs of 2-5 functions over +,-,<,list,progn,if,emit with calls in argument position to functions of lower level and recursive calls (to any function, mutual recursion included) under (if (< n 1) ..); 0-2 rounds of redefinitions; 1-3 main forms; random definition order; six history templates over code objects (load, Code.Compile, Code.Eval k=1..5 times, definitions before/after/between the main forms, redefinition between runs, fresh re-reading); wrong argument counts in 16% of the calls; evaluations = evaluations of a code object; distinct = distinct histories up to the name prefix"
+	ctx.Meta.Rule = "programs of 2-5 functions over +,-,<,list,progn,if,emit with calls in argument position to functions of lower level and recursive calls (to any function, mutual recursion included) under (if (< n 1) ..); 0-2 rounds of redefinitions; 1-3 main forms; random definition order; six history templates over code objects (load, Code.Compile, Code.Eval k=1..5 times, definitions before/after/between the main forms, redefinition between runs, fresh re-reading); wrong argument counts in 7% of the calls; evaluations = evaluations of a code object; distinct = distinct histories up to the name prefix"
 	header := "From Coq Require Import List ZArith String.\nFrom C08 Require Import Model Spec Corr.\nImport ListNotations.\nOpen Scope string_scope.\nOpen Scope list_scope.\n"
-	footer := "Definition res := Eval vm_compute in check_all cases.\nPrint res.\nDefinition gcount := Eval vm_compute in guard_count cases.\nPrint gcount.\nDefinition outside := Eval vm_compute in outside_count cases.\nPrint outside.\n"
+	footer := "Definition res := Eval vm_compute in check_all cases.\nPrint res.\nDefinition gcount := Eval vm_compute in guard_count cases.\nPrint gcount.\nDefinition outside := Eval vm_compute in outside_count cases.\nPrint outside.\nDefinition deviations := Eval vm_compute in deviation_count cases.\nPrint deviations.\n"
 	ctx.WriteShards("cases", header, "case", footer, terms, descs, 16)
 	ctx.ReplayKnownLisp()
 }
